@@ -7,5 +7,5 @@ CONSTANTS
   BaseLen = 3
   MsgRs <- Msgs2
   Emit = TRUE
-INVARIANTS TypeOK Recombine ErrorClasses ParamRange PartialExact AugRefused EmitVec
+INVARIANTS TypeOK Recombine ErrorClasses DealsIndependent ParamRange PartialExact AugRefused EmitVec
 CHECK_DEADLOCK FALSE
